@@ -526,6 +526,56 @@ func genAtomic() string {
 	}
 	sb.WriteString(strings.Join(rows, ",\n"))
 	sb.WriteString("\n]\n\n")
+	// ---- in-place sorts of lists that belong to the discovery ------------------------------------
+	// A server list obtained from the discovery (GetServices(), or received on a watcher channel) is
+	// shared with the publisher and every other watcher; the convergence model treats a delivered
+	// list as a VALUE.  Record every function that sorts such a list in place.
+	var inPlace []string
+	{
+		pi := pkgs["client"]
+		var names []string
+		for n := range pi.funcs {
+			names = append(names, n)
+		}
+		sort.Strings(names)
+		for _, name := range names {
+			fd := pi.funcs[name]
+			if fd.Body == nil {
+				continue
+			}
+			shared := map[string]bool{}
+			fromDiscovery := func(e ast.Expr) bool {
+				c, ok := e.(*ast.CallExpr)
+				return ok && strings.HasSuffix(selString(c.Fun), "GetServices")
+			}
+			ast.Inspect(fd.Body, func(n ast.Node) bool {
+				switch t := n.(type) {
+				case *ast.AssignStmt:
+					for i, l := range t.Lhs {
+						if id, ok := l.(*ast.Ident); ok && i < len(t.Rhs) {
+							shared[id.Name] = fromDiscovery(t.Rhs[i])
+						}
+					}
+				case *ast.RangeStmt:
+					// `for pairs := range ch` over a channel of server lists
+					if id, ok := t.Key.(*ast.Ident); ok && t.Value == nil {
+						if x, ok := t.X.(*ast.Ident); ok && x.Name == "ch" {
+							shared[id.Name] = true
+						}
+					}
+				case *ast.CallExpr:
+					fn := selString(t.Fun)
+					if (fn == "sort.Slice" || fn == "sort.SliceStable" || fn == "sort.Sort" || fn == "sort.Stable") && len(t.Args) > 0 {
+						if id, ok := t.Args[0].(*ast.Ident); ok && shared[id.Name] {
+							inPlace = append(inPlace, "client."+name)
+						}
+					}
+				}
+				return true
+			})
+		}
+	}
+	fmt.Fprintf(&sb, "/-- functions that sort, in place, a server list that belongs to the discovery (shared with the\n    publisher and every other watcher) -/\ndef inPlaceSortsOfSharedLists : List String := %s\n\n", leanStrList(inPlace))
 	sb.WriteString(tieText("Atomic.lean", "atomic"))
 	sb.WriteString("end Rpcx.Gen\n")
 	return sb.String()
